@@ -1,4 +1,4 @@
-import A2Verif.Lemmas.C06FatDisk
+import A2Verif.Lemmas.C06FatFormat
 import A2Verif.Lemmas.FsFatExample
 /-!
 # C06, FAT: the example object (non-vacuity, negative witness), evaluated in the kernel
@@ -43,5 +43,16 @@ theorem exD_free : freeOf (statFree exD) = 20 ∧
     freeOf (statFree { raw := exD.raw, bpb := exD.bpb, typ := exD.typ, fat := none, labelFiles := exD.labelFiles }) = 18 := by
   decide +kernel
 
+
+open A2Verif.FsFat (exDisk0 exDisk0_inv exDisk0_bpb exBoot exStamp exStamp_ok)
+
+theorem exDisk0_coh : Coh exDisk0 := coh_of_inv exDisk0_inv
+
+set_option maxRecDepth 100000 in
+/-- `format("V")` with the example boot sector fits the freshly formatted example volume -/
+theorem exFmtArgs : FmtArgs exDisk0 [86] exBoot exStamp := by
+  refine ⟨exDisk0_inv.lf, by decide, exDisk0_bpb.symm, ?_, ?_, Or.inl (by decide), exStamp_ok⟩
+  · rw [exDisk0_bpb]; decide
+  · rw [exDisk0_bpb]; decide
 
 end A2Verif.Reload.Fat
